@@ -61,8 +61,11 @@ def reference(spec, cot_seed):
         rho = 0.0
     start = spec['start']
     shape = G.shape_of(spec, spec['nonterminals'][start])
-    g = torch.Generator().manual_seed(cot_seed)
-    cot = torch.rand(shape, generator=g, dtype=torch.float64) + 0.25
+    if cot_seed is None:          # all-ones cotangent (what bin/sum_product.py -g/-G uses by default)
+        cot = torch.ones(shape, dtype=torch.float64)
+    else:
+        g = torch.Generator().manual_seed(cot_seed)
+        cot = torch.rand(shape, generator=g, dtype=torch.float64) + 0.25
 
     def run(K, log):
         leaves = {}
